@@ -82,6 +82,18 @@ def oracle(ck):
         refs = np.sqrt(SpectrumAnalyzer(ys, fs, **kw).compute().Gxx)
         if np.any(rz[ok] > 1e-5 * refs[ok]):
             ck.violation("q=%d: residual of an exact static combination is %g of the output spectrum" % (q, float(np.max(rz[ok] / refs[ok]))), inp, tag="static")
+        # no per-segment detrending (order=-1), inputs with static offsets: exact combination -> zero residual, analytic = numeric
+        kwm = dict(kw, order=-1)
+        Xo = [xx_ + ck.rng.uniform(2, 6) * (1 if i_ % 2 == 0 else -1) for i_, xx_ in enumerate(X[:min(q, 3)])]
+        yo = sum(gn * xx_ for gn, xx_ in zip(gains, Xo))
+        with np.errstate(all="ignore"):
+            _, rzo = SY.MISO_numeric_optimal_spectral_analysis(Xo, yo, fs, **kwm); runs += 1
+            refo = np.sqrt(SpectrumAnalyzer(yo, fs, **kwm).compute().Gxx)
+            rao = SY.MISO_analytic_optimal_spectral_analysis(Xo, yo, fs, **kwm)[1] if len(Xo) <= 2 else None
+        if np.any(rzo[ok] > 1e-4 * refo[ok]):
+            ck.violation("order=-1, inputs with offsets: residual of an exact static combination is %g of the output spectrum (numeric solver, q=%d)" % (float(np.max(rzo[ok] / refo[ok])), len(Xo)), dict(inp, order=-1), tag="static-raw")
+        elif rao is not None and np.any(np.abs(rao[ok] - rzo[ok]) > 1e-4 * refo[ok]):
+            ck.violation("order=-1, inputs with offsets: analytic and numeric solvers disagree by %g of the output spectrum" % float(np.max(np.abs(rao[ok] - rzo[ok]) / refo[ok])), dict(inp, order=-1), tag="analytic-vs-numeric-raw")
         # inputs correlated with each other through a delay, couplings with different phases: compare with the direct
         # least-squares residual  Gyy - S^H T^-1 S  built from the same spectra
         xa = g.standard_normal(N); xb = np.roll(xa, 3) + 0.3 * g.standard_normal(N)
